@@ -98,7 +98,11 @@ func (s *Sim) recvPoint(n *RecvNode, label, path string) {
 	s.ob.onRecvPoint(n, label, path)
 	if gateLabels[label] || (optGateLabels[label] && s.hot[label]) {
 		s.observe("at %s %s", label, s.rel(path))
-		s.park(n, label, s.rel(path), nil)
+		var onRel func()
+		if label == "stage.clean.begin" && s.onCleanRelease != nil {
+			onRel = func() { s.onCleanRelease(n) }
+		}
+		s.park(n, label, s.rel(path), onRel)
 		return
 	}
 	if label == "stage.receive.recorded" {
@@ -207,7 +211,16 @@ func (s *Sim) wrapGK(n *RecvNode, source string, gk sts.GateKeeper) sts.GateKeep
 
 func (d *gkDeco) Recover()              { d.gk.Recover() }
 func (d *gkDeco) CleanNow()             { d.gk.CleanNow() }
-func (d *gkDeco) Prune(t time.Duration) { d.s.restamp(d.n); d.gk.Prune(t) }
+func (d *gkDeco) Prune(t time.Duration) {
+	d.s.restamp(d.n)
+	if d.s.on("C20") && !d.n.isDead() {
+		cs := d.s.takeCleanSnap(d.n, "prune")
+		d.gk.Prune(t)
+		d.s.judgeCleanPass(cs, snapshotTree(d.n.stageDir(), nil), t)
+		return
+	}
+	d.gk.Prune(t)
+}
 func (d *gkDeco) Ready() bool           { return d.gk.Ready() }
 func (d *gkDeco) Stop(f bool)           { d.gk.Stop(f) }
 
@@ -266,6 +279,24 @@ func (d *gkDeco) Received(parts []sts.Binned) int {
 		d.s.ob.onReceivedQuery(d, descs, n)
 	}
 	return n
+}
+
+// GetFileVersionStatus forwards the optional version-aware status call when
+// the wrapped gatekeeper has one (otherwise the name-only call answers).
+func (d *gkDeco) GetFileVersionStatus(relPath, hash string, sent time.Time) int {
+	type versioned interface {
+		GetFileVersionStatus(relPath, hash string, sent time.Time) int
+	}
+	var code int
+	if v, ok := d.gk.(versioned); ok {
+		code = v.GetFileVersionStatus(relPath, hash, sent)
+	} else {
+		code = d.gk.GetFileStatus(relPath, sent)
+	}
+	if !d.n.isDead() {
+		d.s.ob.onStatus(d, relPath, sent, code)
+	}
+	return code
 }
 
 func (d *gkDeco) GetFileStatus(relPath string, sent time.Time) int {
